@@ -581,6 +581,14 @@ func (fs *fileStore) doWrite(cout io.WriteCloser, fields core.Fields, filter goe
 		_, writeErr := cout.Write(raw)
 		return highWaterMark, writeErr
 	}
+	if shouldSort && raw != nil {
+		// A raw row comes without decoded columns. It is one complete row, which is
+		// what the sorting writer takes per Write, so pass it through as is (it
+		// used to fall through to the code below, which saw no columns, took the
+		// row for expired and dropped it).
+		_, writeErr := cout.Write(raw)
+		return highWaterMark, writeErr
+	}
 
 	if filter != nil && !filter.Eval(key).(bool) {
 		// Didn't meet filter criteria, remove key
